@@ -21,6 +21,10 @@ import (
 //       the real newShuffleShardHashring (hook) with cache size <cap>; the tenants of <reqs> are asked in
 //       order through getTenantShardCached; answer per request: the sorted positions of the nodes of the
 //       tenant's sub-ring | toobig | toofew | stuck
+//   shardg <za> <rf> <eps> <big> <dflt> <ovs> <req> <series>
+//       one tenant end to end: selection on the base ring, the REAL sub-ring (1000 sections per selected node;
+//       <big> carries their hashes for the model) and GetN(0..rf-1) of the shuffle shard ring for series of
+//       that tenant; answered in positions of eps
 //   o.shardcfg <json hex> <rf> <tenant>    oracle-only, malformed stream: shuffle sharding configured through
 //       JSON + receive.NewMultiHashring with zero / negative / oversized shard sizes; what happens is recorded
 //
@@ -226,6 +230,9 @@ func execC21(v *vctx, tok []string) string {
 	if tok[0] == "o.shardcfg" {
 		return execShardCfg(v, tok)
 	}
+	if tok[0] == "shardg" {
+		return execShardG(v, tok)
+	}
 	if tok[0] != "shard" || len(tok) != 8 {
 		return "bad-op"
 	}
@@ -400,6 +407,97 @@ func execC21(v *vctx, tok []string) string {
 	return hlib.Join(answers, ";")
 }
 
+// shardg <za> <rf> <eps> <big> <dflt> <ovs> <req> <series>: one tenant end to end through the real
+// shuffle shard ring: selection, sub-ring with the production section count, GetN for series of
+// that tenant; answered in positions of eps.
+func execShardG(v *vctx, tok []string) string {
+	if len(tok) != 9 {
+		return "bad-op"
+	}
+	rf, err1 := strconv.Atoi(tok[2])
+	eps, ok1 := parseEps(tok[3])
+	dflt, err3 := strconv.Atoi(tok[5])
+	ovs, ok2 := parseShardOvs(tok[6])
+	series, ok3 := parseSeries(tok[8])
+	if err1 != nil || err3 != nil || !ok1 || !ok2 || !ok3 || (tok[1] != "0" && tok[1] != "1") || len(eps) == 0 {
+		return "bad-op"
+	}
+	bigTok := hlib.Split(tok[4], ",")
+	if len(bigTok) != len(eps) {
+		return "bad-op"
+	}
+	p := strings.Split(tok[7], ":")
+	if len(p) != 3 {
+		return "bad-op"
+	}
+	tb, err := hlib.UnHex(p[0])
+	if err != nil {
+		return "bad-op"
+	}
+	tenant := string(tb)
+	s := shardSetup{za: tok[1] == "1", rf: rf, capa: 10, eps: eps, dflt: dflt, ovs: ovs}
+	if want := shardReqToken(s.za, eps, ovs, tenant); want != tok[7] {
+		v.Violation("harness-rand-input", "glob tables / random positions of the op line differ from filepath.Match / math/rand")
+		return "bad-input"
+	}
+	for _, ser := range series {
+		if ser.tenant != tenant || labelpbHash(ser) != ser.v {
+			v.Violation("harness-hash-input", "series of a shardg op must belong to its tenant and carry their HashWithPrefix")
+			return "bad-input"
+		}
+	}
+	idx := map[string]int{}
+	for i, e := range eps {
+		idx[e.addr] = i
+	}
+	ring, err := s.wrap(eps)
+	if err != nil {
+		return classifyBuildErr(err)
+	}
+	h, err := ring.TenantShardCached(tenant)
+	a, nodes := nodesOf(h, err, idx)
+	if nodes == nil {
+		return a
+	}
+	// the production sections of the selected nodes are the hashes the op line gives the model
+	subEps, subSecs := receive.VerifKetamaSections(h)
+	got := map[int][]string{}
+	for _, sec := range subSecs {
+		i := idx[subEps[sec.EndpointIndex].Address]
+		got[i] = append(got[i], strconv.FormatUint(sec.Hash, 10))
+	}
+	for i, hs := range got {
+		want := hlib.Split(bigTok[i], ".")
+		sort.Strings(want)
+		sort.Strings(hs)
+		if strings.Join(want, ".") != strings.Join(hs, ".") {
+			v.Violation("harness-hash-input", fmt.Sprintf("production section hashes of endpoint %d differ from the op line", i))
+			return "hash-mismatch"
+		}
+	}
+	rows := rowsOf(ring.Ring(), eps, series, rf)
+	in := map[string]bool{}
+	for _, n := range nodes {
+		in[strconv.Itoa(n)] = true
+	}
+	for si, row := range rows {
+		seen := map[string]bool{}
+		for _, g := range row {
+			if !in[g] {
+				v.Violation("replica-outside-shard", fmt.Sprintf("series %d: GetN answered %s, sub-ring nodes %s", si, g, a))
+				break
+			}
+			if seen[g] {
+				v.Violation("replica-duplicate-getn", fmt.Sprintf("series %d: node %s twice: %v", si, g, row))
+				break
+			}
+			seen[g] = true
+		}
+	}
+	v.Count("shardg:ok")
+	return showRows(rows)
+}
+
 func execShardCfg(v *vctx, tok []string) string {
 	if len(tok) != 4 {
 		return "bad-op"
@@ -520,6 +618,55 @@ func genC21(c *hlib.Ctx) {
 			zaTok = "1"
 		}
 		c.Do(fmt.Sprintf("shard %s %d %d %s %d %s %s", zaTok, rf, capa, showEps(eps), dflt, showShardOvs(ovs), strings.Join(reqs, ";")), true)
+	}
+	// end to end with the production section count of the sub-ring: selection, sub-ring, GetN
+	for i := 0; i < c.N(12, 150) && !gaveUp(); i++ {
+		l := pickLayout(r, allLayouts(6, 3), 6)
+		for l.total() < 2 {
+			l = pickLayout(r, allLayouts(6, 3), 6)
+		}
+		n := l.total()
+		za := r.Chance(2, 3)
+		eps := materialise(r, l, []int{1, 2, 3}[r.Intn(3)])
+		minZone := n
+		for _, x := range l {
+			if x < minZone {
+				minZone = x
+			}
+		}
+		dflt := r.Range(1, n)
+		if za {
+			dflt = r.Range(1, minZone*len(l))
+		}
+		rf := r.Range(1, 3)
+		for !l.canBalance(rf) {
+			rf--
+		}
+		big := make([]string, n)
+		for k, e := range eps {
+			hs := sectionHashes(e.addr, receive.SectionsPerNode)
+			ss := make([]string, len(hs))
+			for j, h := range hs {
+				ss[j] = strconv.FormatUint(h, 10)
+			}
+			big[k] = strings.Join(ss, ".")
+		}
+		tenant := r.Pick(shardTenants)
+		if r.Bool() {
+			tenant = fmt.Sprintf("tenant-%d", r.Intn(100))
+		}
+		series := genSeriesList(r, r.Range(5, 20))
+		for k := range series {
+			series[k].tenant = tenant
+			series[k].v = labelpbHash(series[k])
+		}
+		zaTok := "0"
+		if za {
+			zaTok = "1"
+		}
+		c.Count("shardg-gen")
+		c.Do(fmt.Sprintf("shardg %s %d %s %s %d - %s %s", zaTok, rf, showEps(eps), strings.Join(big, ","), dflt,
+			shardReqToken(za, eps, nil, tenant), showSeries(series)), true)
 	}
 	// malformed stream through the JSON loader: zero / negative / oversized shard sizes
 	for i := 0; i < c.N(30, 300) && !gaveUp(); i++ {
